@@ -28,8 +28,7 @@ Proof.
   unfold conv, convx. intros H.
   apply andb_prop in H. destruct H as [H H5]. apply andb_prop in H. destruct H as [H H4].
   apply andb_prop in H. destruct H as [H H3]. apply andb_prop in H. destruct H as [H1 H2].
-  unfold low_index_mults_any. unfold low_index_multiple in H5.
-  rewrite H1, H2, H4. destruct (existsb _ (positionals c)); [discriminate H5|]. cbn [andb negb]. rewrite !andb_true_r.
+  rewrite H1, H2. cbn [andb negb].
   apply forallb_forall. intros a Ha. rewrite forallb_forall in H3. apply conv_arg_convx_arg. apply H3. exact Ha.
 Qed.
 
@@ -37,15 +36,11 @@ Section SimX.
 Variable c : cmd.
 Hypothesis Hx : convx c = true.
 
-Lemma convx_parts : assert_app c = true /\ is_set s_sub_precedence c = false /\ forallb convx_arg (c_args c) = true
-  /\ is_set s_allow_missing_pos c = false /\ low_index_mults_any c = false.
+Lemma convx_parts : assert_app c = true /\ is_set s_sub_precedence c = false /\ forallb convx_arg (c_args c) = true.
 Proof.
   unfold convx in Hx.
-  apply andb_prop in Hx. destruct Hx as [H H5]. apply andb_prop in H. destruct H as [H H4].
-  apply andb_prop in H. destruct H as [H H3]. apply andb_prop in H. destruct H as [H1 H2].
-  split; [exact H1|]. split; [destruct (is_set s_sub_precedence c); [discriminate|reflexivity]|].
-  split; [exact H3|]. split; [destruct (is_set s_allow_missing_pos c); [discriminate|reflexivity]|].
-  destruct (low_index_mults_any c); [discriminate|reflexivity].
+  apply andb_prop in Hx. destruct Hx as [H H3]. apply andb_prop in H. destruct H as [H1 H2].
+  split; [exact H1|]. split; [destruct (is_set s_sub_precedence c); [discriminate|reflexivity]|exact H3].
 Qed.
 Lemma convx_app : assert_app c = true.
 Proof. apply convx_parts. Qed.
@@ -53,25 +48,27 @@ Lemma convx_sp : is_set s_sub_precedence c = false.
 Proof. apply convx_parts. Qed.
 Lemma convx_args a : In a (c_args c) -> a_index a = None -> a_last a = false /\ a_tva a = false.
 Proof.
-  intros Ha Hi. destruct convx_parts as [_ [_ [H _]]].
+  intros Ha Hi. destruct convx_parts as [_ [_ H]].
   rewrite forallb_forall in H. specialize (H a Ha). unfold convx_arg in H.
   rewrite Hi in H. cbn [is_some orb] in H. apply andb_prop in H. destruct H as [H1 H2].
   destruct (a_last a); [discriminate|]. destruct (a_tva a); [discriminate|]. split; reflexivity.
 Qed.
-(** no [last(true)] positional: the look-ahead test of the counter correction is off for every counter value *)
-Lemma convx_low pc : ((pc + 1 =? positional_count c)
-    && existsb (fun a => a_is_multiple a && negb (positional_count c =? opt_default 0 (a_index a))) (positionals c)
-    && match last (map Some (positionals c)) None with Some p => negb (a_last p) | None => false end) = false.
-Proof.
-  destruct convx_parts as [_ [_ [_ [_ H]]]]. unfold low_index_mults_any in H.
-  rewrite <- andb_assoc. rewrite H. apply andb_false_r.
-Qed.
-(** ... so the counter correction of the delivery phase is the identity before [--] *)
+(** where the look-ahead is off, the counter correction of the delivery phase is the identity before [--] *)
 Definition lookahead_off (pos : N) : Prop := forall vaf (rest : list bytes) pst, pc_part c rest (mkL pst pos vaf false) = ROk pos.
-Lemma convx_low_all pos : lookahead_off pos.
+Lemma lookahead_off_of pos : lookahead_at c pos = false -> lookahead_off pos.
 Proof.
-  intros vaf rest pst. unfold pc_part. cbn [l_pos l_trailing l_vaf].
-  destruct convx_parts as [_ [_ [_ [Hamp _]]]]. rewrite (convx_low pos), Hamp. reflexivity.
+  intros H vaf rest pst. unfold pc_part. cbn [l_pos l_trailing l_vaf]. cbv zeta.
+  unfold lookahead_at, low_index_mults_any, is_terminated in H.
+  assert (E : (((pos + 1 =? positional_count c)
+                && existsb (fun a => a_is_multiple a && negb (positional_count c =? opt_default 0 (a_index a))) (positionals c)
+                && match last (map Some (positionals c)) None with Some p => negb (a_last p) | None => false end
+                || is_set s_allow_missing_pos c && (pos + 1 =? positional_count c) && negb false)
+               && negb match get_pos c pos with Some a => is_some (a_term a) | None => false end) = false).
+  { destruct (pos + 1 =? positional_count c); destruct (existsb _ (positionals c));
+      destruct (match last (map Some (positionals c)) None with Some p => negb (a_last p) | None => false end);
+      destruct (is_set s_allow_missing_pos c);
+      destruct (match get_pos c pos with Some a => is_some (a_term a) | None => false end); cbn in *; congruence. }
+  rewrite E. reflexivity.
 Qed.
 
 Lemma find_arg_self_x a : In a (c_args c) -> find_arg c (a_id a) = Some a.
@@ -437,25 +434,40 @@ Proof.
 Qed.
 
 (** ** positional values *)
-Lemma pos_branch_x (v : bytes) (rest : list bytes) pst pos vaf st a :
-  match pst with PSOpt _ => False | _ => True end ->
-  (match pst with PSValuesDone => nosub c v = true | _ => True end) -> value_ok v = true -> get_pos c pos = Some a ->
-  check_terminator a v = false -> a_last a = false -> a_tva a = false ->
-  parse_loop c (v :: rest) (mkL pst pos vaf false) st = pos_step_k c a v rest pos st.
+(** a token that passes the classification phase untouched *)
+Lemma phase1_value rec (v : bytes) (rest : list bytes) pst pos vaf st :
+  (match pst with PSValuesDone => nosub c v = true | _ => True end) -> value_ok v = true ->
+  phase1 c rec v rest (mkL pst pos vaf false) st = ROk (None, mkL pst pos vaf false, st).
 Proof.
-  intros Hp Hn Hv Hg Hterm Hlast Htva. destruct (value_ok_parts v Hv) as [E1 [E2 E3]].
-  destruct convx_parts as [_ [Hsp [_ [Hamp _]]]].
-  pose proof (get_pos_in c pos a Hg) as Ha.
-  pose proof (convx_low pos) as Hlow.
-  cbn [parse_loop]. cbn [l_trailing l_pst l_vaf l_pos].
+  intros Hn Hv. destruct (value_ok_parts v Hv) as [E1 [E2 E3]]. destruct convx_parts as [_ [Hsp _]].
+  unfold phase1. cbn [l_trailing l_pst l_vaf l_pos].
   assert (Hs : (if is_set s_sub_precedence c || match pst with PSValuesDone => true | _ => false end
                 then possible_subcommand c v vaf else None) = None).
   { rewrite Hsp. cbn [orb]. destruct pst; try reflexivity. apply (nosub_if c v vaf true Hn). }
-  rewrite Hs, E1, E2, E3. cbn [rbind]. cbn [l_trailing l_pst l_vaf l_pos].
-  unfold pos_step_k.
-  destruct pst as [|i|i]; [|contradiction|];
-    rewrite Hlow, Hamp; cbn [andb orb rbind]; rewrite Hg, Hlast, Htva; cbn [andb orb];
-    rewrite Hterm; reflexivity.
+  rewrite Hs, E1, E2, E3. reflexivity.
+Qed.
+(** the delivery phase at a counter where the look-ahead is off *)
+Lemma pos_deliver (v : bytes) (rest : list bytes) pst pos vaf st a :
+  match pst with PSOpt _ => False | _ => True end -> lookahead_off pos -> get_pos c pos = Some a ->
+  check_terminator a v = false -> a_last a = false -> a_tva a = false ->
+  phase2 c (parse_loop c rest) v rest (mkL pst pos vaf false) st = pos_step_k c a v rest pos st.
+Proof.
+  intros Hp Hlow Hg Hterm Hlast Htva. unfold phase2. cbn [l_trailing l_pst].
+  assert (E : pos_part c (parse_loop c rest) v rest (mkL pst pos vaf false) st = pos_step_k c a v rest pos st).
+  { unfold pos_part. rewrite (Hlow vaf rest pst). cbn [rbind]. cbn [l_trailing l_pst l_vaf l_pos].
+    rewrite Hg, Hlast, Htva. cbn [andb orb]. rewrite Hterm. unfold pos_step_k. reflexivity. }
+  destruct pst; [exact E|contradiction|exact E].
+Qed.
+
+Lemma pos_branch_x (v : bytes) (rest : list bytes) pst pos vaf st a :
+  match pst with PSOpt _ => False | _ => True end ->
+  (match pst with PSValuesDone => nosub c v = true | _ => True end) -> value_ok v = true -> get_pos c pos = Some a ->
+  check_terminator a v = false -> a_last a = false -> a_tva a = false -> lookahead_off pos ->
+  parse_loop c (v :: rest) (mkL pst pos vaf false) st = pos_step_k c a v rest pos st.
+Proof.
+  intros Hp Hn Hv Hg Hterm Hlast Htva Hlow. rewrite parse_loop_step.
+  rewrite (phase1_value (parse_loop c rest) v rest pst pos vaf st Hn Hv). cbn [rbind].
+  apply pos_deliver; assumption.
 Qed.
 
 Lemma pos_first_x (v : bytes) (rest : list bytes) pst pos st a : get_pos c pos = Some a ->
@@ -485,17 +497,17 @@ Proof.
 Qed.
 
 Lemma loop_pos_values_x a (rest : list bytes) pos st : get_pos c pos = Some a -> a_multiple_values a = true ->
-  a_last a = false -> a_tva a = false ->
+  a_last a = false -> a_tva a = false -> lookahead_off pos ->
   forall (vs vs0 : list bytes), forallb value_ok vs = true -> forallb (fun v => negb (check_terminator a v)) vs = true ->
   parse_loop c (vs ++ rest) (mkL (PSPos (a_id a)) pos true false) (set_pending (a_id a) IIndex vs0 st) =
   parse_loop c rest (mkL (PSPos (a_id a)) pos true false) (set_pending (a_id a) IIndex (vs0 ++ vs) st).
 Proof.
-  intros Hg Hm Hlast Htva. induction vs as [|v vs IH]; intros vs0 Hv Ht.
+  intros Hg Hm Hlast Htva Hlow. induction vs as [|v vs IH]; intros vs0 Hv Ht.
   - cbn [app]. rewrite app_nil_r. reflexivity.
   - cbn [forallb] in Hv. apply andb_prop in Hv. destruct Hv as [Hv Hvs]. cbn [app].
     cbn [forallb] in Ht. apply andb_prop in Ht. destruct Ht as [Ht Hts].
     assert (Ht' : check_terminator a v = false) by (destruct (check_terminator a v); [discriminate|reflexivity]).
-    rewrite (pos_branch_x v (vs ++ rest) (PSPos (a_id a)) pos true _ a I I Hv Hg Ht' Hlast Htva).
+    rewrite (pos_branch_x v (vs ++ rest) (PSPos (a_id a)) pos true _ a I I Hv Hg Ht' Hlast Htva Hlow).
     rewrite (pos_more c v (vs ++ rest) pos st a vs0 Hm). rewrite (IH (vs0 ++ [v]) Hvs Hts).
     rewrite <- app_assoc. reflexivity.
 Qed.
@@ -503,13 +515,15 @@ Qed.
 Lemma posx_ok_parts pst pos (vs : list bytes) : posx_ok c pst pos vs = true ->
   exists a, get_pos c pos = Some a /\ (pos_ok pst (Some a) vs = true \/ hyph_single c pst pos vs = true) /\
     forallb (fun v => negb (check_terminator a v)) vs = true /\ a_last a = false /\ a_tva a = false /\
-    (a_is_multiple a = true -> a_hyphen a = false /\ a_negnum a = false).
+    (a_is_multiple a = true -> a_hyphen a = false /\ a_negnum a = false) /\ lookahead_off pos.
 Proof.
   unfold posx_ok. intros H. apply andb_prop in H. destruct H as [H1 H2].
   destruct (get_pos c pos) as [a|] eqn:Hg; [|discriminate]. exists a. split; [reflexivity|].
+  apply andb_prop in H2. destruct H2 as [H2 HL]. apply negb_true_iff in HL. apply lookahead_off_of in HL.
   apply andb_prop in H2. destruct H2 as [H2 H5]. apply andb_prop in H2. destruct H2 as [H2 H4]. apply andb_prop in H2. destruct H2 as [H2 H3].
   split; [apply orb_prop in H1; exact H1|]. split; [exact H2|].
   destruct (a_last a); [discriminate|]. destruct (a_tva a); [discriminate|]. split; [reflexivity|]. split; [reflexivity|].
+  split; [|exact HL].
   intros Hm. rewrite Hm in H5. cbn [negb orb] in H5. apply andb_prop in H5. destruct H5 as [H5 H6].
   destruct (a_hyphen a); [discriminate|]. destruct (a_negnum a); [discriminate|]. split; reflexivity.
 Qed.
@@ -531,8 +545,7 @@ Proof.
     (do p1 <- ROk (@None (res loop_res), mkL PSValuesDone pos vaf1 false, st);
      let '(early, ls, st) := p1 in
      match early with Some r => r | None => phase2 c (parse_loop c rest) v rest ls st end) = pos_step_k c a v rest pos st).
-  { intros vaf1. cbn [rbind]. unfold phase2. cbn [l_trailing l_pst]. unfold pos_part.
-    rewrite (Hlow vaf1 rest PSValuesDone). cbn [rbind]. cbn [l_trailing l_pst l_vaf l_pos]. rewrite Hg, Hlast, Htva. cbn [andb orb]. rewrite Hterm. unfold pos_step_k. reflexivity. }
+  { intros vaf1. cbn [rbind]. apply pos_deliver; try assumption. exact I. }
   destruct (to_long v) as [[[f ok] val]|] eqn:TL.
   - apply andb_prop in Hh. destruct Hh as [Hh Hu]. apply andb_prop in Hh. destruct Hh as [Hh Hnil]. apply andb_prop in Hh. destruct Hh as [Hph Hok].
     apply negb_true_iff in Hnil. unfold long_unknown in Hu. apply andb_prop in Hu. destruct Hu as [Hu Hfs]. apply andb_prop in Hu. destruct Hu as [Hgl Hil].
@@ -556,7 +569,7 @@ Lemma loop_pos_x (vs : list bytes) (rest : list bytes) pst pos vaf st :
   (do st1 <- apply_item c pos (ItPos vs) st;
    parse_loop c rest (mkL (item_pst c pos (ItPos vs)) (item_pos c pos (ItPos vs)) true false) st1).
 Proof.
-  intros Hi Hn Hokx. destruct (posx_ok_parts _ _ _ Hokx) as [a [Hg [Hor [Hts [Hlast [Htva Hmh]]]]]].
+  intros Hi Hn Hokx. destruct (posx_ok_parts _ _ _ Hokx) as [a [Hg [Hor [Hts [Hlast [Htva [Hmh Hlow]]]]]]].
   cbn [apply_item item_pst item_pos]. rewrite Hg.
   destruct Hor as [Hok|Hhs].
   - destruct (pos_ok_parts _ _ _ Hok) as [a0 [v [vs' [Ea0 [-> [Hv [Hm Hp]]]]]]]. inversion Ea0; subst a0.
@@ -564,19 +577,19 @@ Proof.
     cbn [forallb] in Hv. apply andb_prop in Hv. destruct Hv as [Hv Hvs]. cbn [app].
     cbn [forallb] in Hts. apply andb_prop in Hts. destruct Hts as [Ht Hts].
     assert (Ht' : check_terminator a v = false) by (destruct (check_terminator a v); [discriminate|reflexivity]).
-    rewrite (pos_branch_x v (vs' ++ rest) pst pos vaf st a); [|destruct pst; tauto|destruct pst; tauto|exact Hv|exact Hg|exact Ht'|exact Hlast|exact Htva].
+    rewrite (pos_branch_x v (vs' ++ rest) pst pos vaf st a); [|destruct pst; tauto|destruct pst; tauto|exact Hv|exact Hg|exact Ht'|exact Hlast|exact Htva|exact Hlow].
     rewrite (pos_first_x v (vs' ++ rest) pst pos st a Hg); [|destruct pst; tauto|exact Hi].
     destruct Hm as [Hm| ->].
     + assert (Hmul : a_is_multiple a = true) by (unfold a_is_multiple; rewrite Hm; reflexivity).
       rewrite Hmul. unfold sep_step. destruct (resolve_pending c st) as [st1|e s|n]; cbn [rbind]; try reflexivity.
-      rewrite (loop_pos_values_x a rest pos st1 Hg Hm Hlast Htva vs' [v] Hvs Hts). reflexivity.
+      rewrite (loop_pos_values_x a rest pos st1 Hg Hm Hlast Htva Hlow vs' [v] Hvs Hts). reflexivity.
     + cbn [app]. reflexivity.
   - unfold hyph_single in Hhs. rewrite Hg in Hhs. destruct vs as [|v [|w t]]; try discriminate Hhs.
     destruct pst; try discriminate Hhs. apply andb_prop in Hhs. destruct Hhs as [Hht Hnm]. apply negb_true_iff in Hnm.
     cbn [firstn forallb] in Hn. apply andb_prop in Hn. destruct Hn as [Hn _].
     cbn [forallb] in Hts. apply andb_prop in Hts. destruct Hts as [Ht _].
     assert (Ht' : check_terminator a v = false) by (destruct (check_terminator a v); [discriminate|reflexivity]).
-    cbn [app]. rewrite (pos_branch_h v rest pos vaf st a Hn Hht Hg (convx_low_all pos) Ht' Hlast Htva).
+    cbn [app]. rewrite (pos_branch_h v rest pos vaf st a Hn Hht Hg Hlow Ht' Hlast Htva).
     rewrite (pos_first_x v rest PSValuesDone pos st a Hg I Hi). rewrite Hnm. reflexivity.
 Qed.
 
@@ -613,7 +626,7 @@ Proof.
   - destruct t as [|o v|o v|o vs]; try exact I. destruct H2 as [_ [H2 _]]. cbn [wfx_tail] in H2.
     apply andb_prop in H2. destruct H2 as [_ H2]. destruct (sepx_ok_parts _ _ H2) as [a [Hg [_ [_ [_ [_ Hcl]]]]]]. rewrite Hg.
     apply opt_pst_okx; [apply (get_short_in c o a Hg)|exact Hcl].
-  - destruct H2 as [_ H2]. destruct (posx_ok_parts _ _ _ H2) as [a [Hg [_ [_ [_ [_ Hmh]]]]]]. rewrite Hg.
+  - destruct H2 as [_ H2]. destruct (posx_ok_parts _ _ _ H2) as [a [Hg [_ [_ [_ [_ [Hmh _]]]]]]]. rewrite Hg.
     destruct (a_is_multiple a) eqn:Em; [|exact I].
     exists a. split; [apply find_arg_self_x; apply (get_pos_in c pos a Hg)|apply Hmh; reflexivity].
 Qed.
